@@ -38,6 +38,9 @@ def _intrinsic(tail, args):
         if out >= 1 << 64:
             raise Panic("overflow in next_multiple_of")
         return out
+    if tail == "is_multiple_of":
+        a, b = args
+        return int(a == 0) if b == 0 else int(a % b == 0)
     if tail == "is_power_of_two":
         return int(args[0] != 0 and args[0] & (args[0] - 1) == 0)
     if tail == "trailing_zeros":
